@@ -9,6 +9,12 @@
 //	nest:   if a && b { S } (no else)    ->  if a { if b { S } }
 //	chain:  switch { case c1: A ... }    ->  if c1 { A } else if ... (no break/fallthrough inside)
 //	incdec: x += 1 / x -= 1 / x = x + 1  ->  x++ / x--
+//	merge:  if a { if b { S } }          ->  if a && b { S }
+//	tagswitch: switch x { case c: A }    ->  if x == c { A } else ... (x an identifier or selector chain)
+//	unelse: if c { ...return } else { T } ->  if c { ...return }; T
+//	elseify: if c { ...return }; rest    ->  if c { ...return } else { rest }   (last such if of a function body)
+//	orsplit: if a || b { ...return }     ->  if a { ...return }; if b { ...return }
+//	rename: every local variable, parameter and receiver x -> xZ
 package main
 
 import (
@@ -59,6 +65,18 @@ func main() {
 			rewriteStmts(f, chain)
 		case "incdec":
 			rewriteStmts(f, incdec)
+		case "merge":
+			rewriteStmts(f, merge)
+		case "tagswitch":
+			rewriteStmts(f, tagswitch)
+		case "unelse":
+			rewriteLists(f, unelse)
+		case "elseify":
+			rewriteLists(f, elseify)
+		case "orsplit":
+			rewriteLists(f, orsplit)
+		case "rename":
+			renameLocals(f)
 		}
 		if nChanged == before {
 			return nil
@@ -257,3 +275,280 @@ func incdec(s ast.Stmt) ast.Stmt {
 	}
 	return s
 }
+
+// rewriteLists applies fn to every statement list (it may change its length).
+func rewriteLists(f *ast.File, fn func([]ast.Stmt) []ast.Stmt) {
+	ast.Inspect(f, func(x ast.Node) bool {
+		switch b := x.(type) {
+		case *ast.BlockStmt:
+			b.List = fn(b.List)
+		case *ast.CaseClause:
+			b.Body = fn(b.Body)
+		case *ast.CommClause:
+			b.Body = fn(b.Body)
+		}
+		return true
+	})
+}
+
+func merge(s ast.Stmt) ast.Stmt {
+	is, ok := s.(*ast.IfStmt)
+	if !ok || is.Else != nil || is.Init != nil || len(is.Body.List) != 1 {
+		return s
+	}
+	in, ok := is.Body.List[0].(*ast.IfStmt)
+	if !ok || in.Else != nil || in.Init != nil {
+		return s
+	}
+	nChanged++
+	return &ast.IfStmt{Cond: &ast.BinaryExpr{X: &ast.ParenExpr{X: is.Cond}, Op: token.LAND, Y: &ast.ParenExpr{X: in.Cond}}, Body: in.Body}
+}
+
+func pureOperand(e ast.Expr) bool {
+	switch x := e.(type) {
+	case *ast.Ident:
+		return true
+	case *ast.SelectorExpr:
+		return pureOperand(x.X)
+	case *ast.ParenExpr:
+		return pureOperand(x.X)
+	}
+	return false
+}
+
+func tagswitch(s ast.Stmt) ast.Stmt {
+	sw, ok := s.(*ast.SwitchStmt)
+	if !ok || sw.Tag == nil || sw.Init != nil || !pureOperand(sw.Tag) || len(sw.Body.List) == 0 {
+		return s
+	}
+	var def *ast.CaseClause
+	var cases []*ast.CaseClause
+	for i, c := range sw.Body.List {
+		cc := c.(*ast.CaseClause)
+		if hasBreak(cc.Body) {
+			return s
+		}
+		if cc.List == nil {
+			if i != len(sw.Body.List)-1 {
+				return s
+			}
+			def = cc
+			continue
+		}
+		cases = append(cases, cc)
+	}
+	if len(cases) == 0 {
+		return s
+	}
+	var build func(i int) ast.Stmt
+	build = func(i int) ast.Stmt {
+		cc := cases[i]
+		var cond ast.Expr
+		for _, e := range cc.List {
+			t := &ast.BinaryExpr{X: sw.Tag, Op: token.EQL, Y: e}
+			if cond == nil {
+				cond = t
+			} else {
+				cond = &ast.BinaryExpr{X: cond, Op: token.LOR, Y: t}
+			}
+		}
+		is := &ast.IfStmt{Cond: cond, Body: &ast.BlockStmt{List: cc.Body}}
+		if i+1 < len(cases) {
+			is.Else = build(i + 1)
+		} else if def != nil {
+			is.Else = &ast.BlockStmt{List: def.Body}
+		}
+		return is
+	}
+	nChanged++
+	return build(0)
+}
+
+func endsInReturn(list []ast.Stmt) bool {
+	if len(list) == 0 {
+		return false
+	}
+	switch x := list[len(list)-1].(type) {
+	case *ast.ReturnStmt:
+		return true
+	case *ast.BranchStmt:
+		return x.Tok == token.CONTINUE || x.Tok == token.GOTO
+	case *ast.ExprStmt:
+		if ce, ok := x.X.(*ast.CallExpr); ok {
+			if id, ok := ce.Fun.(*ast.Ident); ok && id.Name == "panic" {
+				return true
+			}
+		}
+	}
+	return false
+}
+
+// declares: the list declares a name that later statements could see.
+func declares(list []ast.Stmt) bool {
+	for _, s := range list {
+		switch x := s.(type) {
+		case *ast.AssignStmt:
+			if x.Tok == token.DEFINE {
+				return true
+			}
+		case *ast.DeclStmt:
+			return true
+		case *ast.LabeledStmt:
+			return true
+		}
+	}
+	return false
+}
+
+func unelse(list []ast.Stmt) []ast.Stmt {
+	var out []ast.Stmt
+	for _, s := range list {
+		is, ok := s.(*ast.IfStmt)
+		if ok && is.Else != nil && is.Init == nil && endsInReturn(is.Body.List) {
+			if eb, ok := is.Else.(*ast.BlockStmt); ok && !declares(eb.List) {
+				nChanged++
+				out = append(out, &ast.IfStmt{Cond: is.Cond, Body: is.Body})
+				out = append(out, eb.List...)
+				continue
+			}
+		}
+		out = append(out, s)
+	}
+	return out
+}
+
+func elseify(list []ast.Stmt) []ast.Stmt {
+	// the last `if c { ...return }` (no else, no init) that is followed by something
+	for i := len(list) - 2; i >= 0; i-- {
+		is, ok := list[i].(*ast.IfStmt)
+		if !ok || is.Else != nil || is.Init != nil {
+			continue
+		}
+		if len(is.Body.List) == 0 {
+			continue
+		}
+		if _, ok := is.Body.List[len(is.Body.List)-1].(*ast.ReturnStmt); !ok {
+			continue
+		}
+		rest := list[i+1:]
+		if !endsInReturnOnly(rest) {
+			continue
+		}
+		nChanged++
+		n := &ast.IfStmt{Cond: is.Cond, Body: is.Body, Else: &ast.BlockStmt{List: append([]ast.Stmt{}, rest...)}}
+		return append(append([]ast.Stmt{}, list[:i]...), n)
+	}
+	return list
+}
+
+// endsInReturnOnly: the statements end with a return (so that moving them
+// into an else block leaves no fall-through to a missing final return).
+func endsInReturnOnly(list []ast.Stmt) bool {
+	if len(list) == 0 {
+		return false
+	}
+	_, ok := list[len(list)-1].(*ast.ReturnStmt)
+	return ok
+}
+
+func orsplit(list []ast.Stmt) []ast.Stmt {
+	var out []ast.Stmt
+	for _, s := range list {
+		is, ok := s.(*ast.IfStmt)
+		if ok && is.Else == nil && is.Init == nil && endsInReturn(is.Body.List) {
+			if be, ok := is.Cond.(*ast.BinaryExpr); ok && be.Op == token.LOR {
+				nChanged++
+				out = append(out, &ast.IfStmt{Cond: be.X, Body: is.Body})
+				out = append(out, &ast.IfStmt{Cond: be.Y, Body: is.Body})
+				continue
+			}
+		}
+		out = append(out, s)
+	}
+	return out
+}
+
+// renameLocals appends Z to every identifier that the parser resolved to a
+// variable declared inside a function (parameters, results, receivers,
+// := and var declarations, range variables).
+func renameLocals(f *ast.File) {
+	// declaration nodes that stand inside a function
+	inFunc := map[interface{}]bool{}
+	mark := func(fl *ast.FieldList) {
+		if fl == nil {
+			return
+		}
+		for _, fd := range fl.List {
+			inFunc[fd] = true
+		}
+	}
+	ast.Inspect(f, func(n ast.Node) bool {
+		switch x := n.(type) {
+		case *ast.FuncDecl:
+			mark(x.Recv)
+			mark(x.Type.Params)
+			mark(x.Type.Results)
+			if x.Body != nil {
+				ast.Inspect(x.Body, func(y ast.Node) bool {
+					switch z := y.(type) {
+					case *ast.AssignStmt:
+						inFunc[z] = true
+					case *ast.ValueSpec:
+						inFunc[z] = true
+					case *ast.RangeStmt:
+						inFunc[z] = true
+					case *ast.FuncLit:
+						mark(z.Type.Params)
+						mark(z.Type.Results)
+					case *ast.TypeSwitchStmt:
+						inFunc[z] = true
+						if a, ok := z.Assign.(*ast.AssignStmt); ok {
+							inFunc[a] = true
+						}
+					}
+					return true
+				})
+			}
+		}
+		return true
+	})
+	// keys of struct literals look like variables to the parser's resolver
+	skip := map[*ast.Ident]bool{}
+	ast.Inspect(f, func(n ast.Node) bool {
+		cl, ok := n.(*ast.CompositeLit)
+		if !ok {
+			return true
+		}
+		switch cl.Type.(type) {
+		case *ast.MapType, *ast.ArrayType:
+			return true
+		}
+		for _, e := range cl.Elts {
+			if kv, ok := e.(*ast.KeyValueExpr); ok {
+				if id, ok := kv.Key.(*ast.Ident); ok {
+					skip[id] = true
+				}
+			}
+		}
+		return true
+	})
+	ast.Inspect(f, func(n ast.Node) bool {
+		id, ok := n.(*ast.Ident)
+		if !ok || id.Obj == nil || id.Obj.Kind != ast.Var || id.Name == "_" || skip[id] {
+			return true
+		}
+		if inFunc[id.Obj.Decl] {
+			if !strings.HasSuffix(id.Name, "Z") || true {
+				// rename once per identifier node
+				if _, done := renamed[id]; !done {
+					renamed[id] = true
+					id.Name += "Z"
+					nChanged++
+				}
+			}
+		}
+		return true
+	})
+}
+
+var renamed = map[*ast.Ident]bool{}
